@@ -491,5 +491,30 @@ def C06.bad (c : Ctx) (j : Journal) : List String :=
         (if adds != 0 then ["taint-above-scale-up-threshold"] else [])
       else []
 
+/-- scale_on_starve as documented ("a pod that cannot currently be scheduled due to no node having
+    capacity to run it"): some pending pod asks, in CPU or in memory, for more than nothing and for
+    more than any untainted node has left. -/
+def starvedPod (pods : List Pod) (unt : List Node) (p : Pod) : Bool :=
+  let r := podRequest p
+  (r.cpu > 0 && unt.all (fun n => r.cpu > (nodeAvail pods n).cpu)) ||
+  (r.mem > 0 && unt.all (fun n => r.mem > (nodeAvail pods n).mem))
+
+def starved (pods : List Pod) (unt : List Node) : Bool :=
+  (pods.filter (fun p => p.phase == "Pending")).any (starvedPod pods unt)
+
+/-- The scale_on_starve exception: with the option on, a starved pod and room below max_nodes, the scan
+    must not taint and its decision must be a scale-up of at least one node. Judged under the same
+    conditions as the bands (not dry, unlocked, node count within bounds, at least min untainted). -/
+def C06.badStarve (c : Ctx) (obsDelta : Int) (j : Journal) : List String :=
+  let unt := nodesOf c.dry c.st .untainted c.view.nodes
+  let n : Int := c.view.nodes.length
+  if c.dry || lockHeld c.st.lock c.cfg.coolNs c.nowReal || n < c.st.minEff || n > c.st.maxEff ||
+     (unt.length : Int) < c.st.minEff || !c.cfg.scaleOnStarve || !((unt.length : Int) < c.st.maxEff) ||
+     (exactUtil c).isNone || !starved c.view.pods unt then []
+  else
+    let adds := (j.filter (isTaintAdd c.view)).length
+    (if adds != 0 then ["taint-while-a-pod-is-starved"] else []) ++
+    (if obsDelta < 1 then ["starved-pod-but-decision-" ++ toString obsDelta] else [])
+
 end Spec
 end Esc
